@@ -593,7 +593,7 @@ Mode(name, configs, shapes, uniform, maxf, heavy, emitmod) ==
 
 ShapesSubsetsQuick == {Sh("multi", <<17, 2>>), Sh("single", <<5>>)}
 ShapesSubsetsP1    == {Sh("multi", <<12>>)}
-ShapesSubsetsP     == {Sh("multi", <<3, 10>>), Sh("multi", <<17, 2>>), Sh("single", <<5>>)}
+ShapesSubsetsP     == {Sh("multi", <<17, 2>>), Sh("single", <<5>>)}
 ShapesSubsets      == {Sh("multi", <<1>>), Sh("multi", <<18>>), Sh("multi", <<3, 10>>), Sh("multi", <<17, 2>>),
                        Sh("multi", <<16, 16>>), Sh("single", <<5>>), Sh("single", <<17>>), ShDup(<<4, 4>>)}
 \* sizes beyond 18 digits: 2^31 and 2^32 have 10 digits, 2^63 and 10^18 have 19
@@ -634,13 +634,13 @@ ModesThorough ==
   { Mode("subsets4", SmallConfigs, ShapesSubsets,      TRUE,  4,  TRUE,  1),
     Mode("records",  AllConfigs,   ShapesRecords,      FALSE, 1,  TRUE,  1),
     Mode("pairs",    AllConfigs,   ShapesPairs,        FALSE, 2,  TRUE,  5),
-    Mode("full4",    SmallConfigs, ShapesPairsQuick,   FALSE, 4,  TRUE,  6),
+    Mode("full4",    HistConfigs,  ShapesPairsQuick,   FALSE, 4,  TRUE,  4),
     HMode("hist",    AllConfigs,   ShapesHist,         FALSE, 1,  TRUE,  2, 2, {1, 7, 17}, 4),
     HMode("hist2",   AllConfigs,   ShapesHist,         FALSE, 2,  TRUE,  2, 1, {1, 7}, 4),
     XMode("alias",   AllConfigs,   ShapesAlias,        FALSE, 1,  TRUE,  2, 2, {1, 7}, 4, {"setsize", "append", "delete"}, {"parsed", "built"}, {}),
     XMode("live",    LiveConfigs \cup {<<"Changes", "-">>}, ShapesLive, FALSE, 1, TRUE, 3, 2, {7}, 1, LiveKindsT, {"built", "parsed"}, LiveOthersT) }
 ModesThoroughP ==
-  { Mode("subsetsP", PdiffConfig,  ShapesSubsetsP,     TRUE,  14, TRUE,  3) }
+  { Mode("subsetsP", PdiffConfig,  ShapesSubsetsP,     TRUE,  14, TRUE,  2) }
 \* negative controls (small)
 ModesNegIterate   == { Mode("neg", AllConfigs,      ShapesSubsetsQuick, TRUE, 2, TRUE, 1) }
 ModesNegIterateOk == { Mode("neg", NoLookupConfigs, ShapesSubsetsQuick, TRUE, 4, TRUE, 1) }
